@@ -245,6 +245,21 @@ def endings_scripts(feats=(), caps=(1, 2)):
                             lines.append(cause)
                         lines.append("advance 1")
                         out.append(lines)
+        # the same endings reached in one go: the messages and the stop request pile up behind a
+        # gated first handler and are then released together (nothing runs dry in between)
+        for runs in ([], ["false"]):
+            for msgs in (1, 2, 3):
+                for cause in ("stop", "drop"):
+                    for stopout in ("ok", "err:7", "panic"):
+                        lines = [feat_line(feats), "spawn %d 1" % (cap + 4)]
+                        lines += ["run 0 %s" % r for r in runs]
+                        lines.append("auto 0 0")
+                        for o in range(1, msgs + 1):
+                            lines.append("op %d tell 0 -" % o)
+                        lines.append("op %d stop 0 -" % (msgs + 1) if cause == "stop" else "drop 0")
+                        lines += ["hook 0 ok"] * msgs + ["hook 0 " + stopout]
+                        lines += ["auto 0 1", "advance 1"]
+                        out.append(lines)
     return out
 
 
@@ -259,9 +274,11 @@ def gen_script(seed, family, length=None, feats=()):
         # a long burst behind a gated handler, released in one go: exercises anything that counts
         # messages (fairness yields, batching) at thresholds up to ~100.  Capacity exceeds the burst
         # (no sender waits, which would multiply the interleavings the model side has to explore).
-        g.spawn(cap=128, auto=True)
+        # (a third of the bursts exceed tokio's cooperative budget of 128 receptions per task poll)
+        big = rng.random() < 0.34
+        g.spawn(cap=512 if big else 128, auto=True)
         g.emit("auto 0 0")
-        for _ in range(rng.randrange(33, 100)):
+        for _ in range(rng.randrange(130, 300) if big else rng.randrange(33, 100)):
             g.emit(f"op {g.new_oid()} tell 0 -")
         g.emit("auto 0 1")
         g.emit("hook 0 ok")
